@@ -55,7 +55,7 @@ func VerifHarness_C20_records() {
 		}
 	})
 	verifrt.Note("record %s len %d: panic=%v %s err=%v", names[kind], n, panicked, what, err)
-	verifrt.Sig(names[kind], "panic", what)
+	verifrt.Sig("panic in", verifrt.PanicSite(), what, "decoding", names[kind])
 	verifrt.Assert(!panicked, "C20.decode.no-panic")
 	verifrt.Reach("C20.records.done")
 }
